@@ -201,7 +201,7 @@ def second_generation_edits(g, case, r, ir2, node, res):
     lookup = ir_fresh.get_by_uuid
     expected_aux = {}
     holders = [(r.spec["ir"], ir_fresh)] + [(mi["spec"], lookup(r.uuid(mi["spec"]))) for mi in r.mods]
-    for e in edits:
+    for n_edit, e in enumerate(edits):
         kind = e % 9
         if kind == 0:
             for hs, holder in holders:
@@ -272,7 +272,7 @@ def second_generation_edits(g, case, r, ir2, node, res):
             target = [lookup(r.uuid(b)) for b in mi["blocks"] + mi["proxies"]]
             import uuid as _uuid
 
-            g.Symbol("added", uuid=_uuid.UUID(int=(0xADD << 100) | e), payload=target[e % len(target)] if target else 7, module=m)
+            g.Symbol("added", uuid=_uuid.UUID(int=(0xADD << 100) | (n_edit << 16) | e), payload=target[e % len(target)] if target else 7, module=m)
     snap_c = snapshot.snapshot(g, ir_fresh)
     try:
         ir4 = g.IR.load_protobuf_file(io.BytesIO(save(ir_fresh)))
